@@ -390,6 +390,7 @@ func c07R4(c *Ctx, r *Report) {
 	for _, s := range sites {
 		c07PrincipalSite(c, r, s.fn, s.write)
 	}
+	c07ResyncRelease(c, r)
 	// any other allocation site must be known
 	known := map[string]bool{
 		"(*db.DatabaseContext).UpdatePrincipal": true, "(*db.DatabaseContext).regeneratePrincipalSequences": true, "(*db.DatabaseContext).DeleteRole": true,
@@ -1067,4 +1068,30 @@ func idxOfParsed(c *Ctx, v ssa.Value) int {
 		return -1
 	}
 	return int(k)
+}
+
+// c07ResyncRelease: ResyncDocument (regenerate-sequences mode) allocates inside the CAS callback through getResyncedDocument →
+// assignSequence; the sequences it reports as unused can only be known after the CAS write has run, so the release must come
+// after it.
+func c07ResyncRelease(c *Ctx, r *Report) {
+	name := "(*db.DatabaseCollectionWithUser).ResyncDocument"
+	fn := c.Func(name)
+	if fn == nil {
+		r.Fail("C07-R4", "anchor "+name, "-", "function not found")
+		return
+	}
+	var writes []ssa.Instruction
+	for _, w := range c.Calls(fn, false, nameHasSuffix(".WriteUpdateWithXattrs")) {
+		writes = append(writes, w)
+	}
+	rels := c.Calls(fn, false, nameIs("(*db.DatabaseCollection).releaseSequences"))
+	if len(writes) == 0 || len(rels) == 0 {
+		r.Fail("C07-R4", "fn="+name+" release-of-resync-sequences", c.Pos(fn.Pos()), "CAS write or release of unused sequences not found")
+		return
+	}
+	for i, rel := range rels {
+		ok := DominatedBy(fn, rel, NewAvoid().AddInstr(writes...))
+		r.Check("C07-R4", fmt.Sprintf("fn=%s releaseSequences #%d after=CAS-write", name, i+1), c.Pos(rel.Pos()), ok,
+			"the unused sequences are released after the CAS write that determines them", "releaseSequences(unusedSequences) runs before the CAS write whose callback assigns that list (dead release): sequences superseded or left over when resync regenerates sequences are never published as unused")
+	}
 }
